@@ -17,6 +17,16 @@ def para_texts(doc, view):
         out.append(''.join(a[1] for a in at if a[0] == 'ch').replace('\t', ' '))
     return out
 
+def story_starts(doc):
+    """accepted text of the first paragraph of every story after the first one (where an insertion must not slip into the story before)"""
+    out = []
+    for st in doc['stories'][1:]:
+        ps = list(A.paras({'stories': [st]}))
+        if ps:
+            at = [a for a in A.atoms(ps[0]['nodes']) if a[0] == 'ch' and not any(k == 'd' for k, _ in a[3])]
+            out.append(''.join(a[1] for a in at).replace('\t', ' '))
+    return out
+
 def literal(new):
     """what the new text reads as once well-formed **bold** / _italic_ spans have become formatting (D20 pattern)"""
     pat = re.compile(r"(\*\*(?=[^\s*])(?:.*?[^\s*])?\*\*)|((?<![\w_])_(?=[^\s_])(?:.*?[^\s_])?_(?![\w_]))")
@@ -64,6 +74,18 @@ def gen_batch(rng, din, raw, clean, kind='exact'):
             del NL_TARGETS[:]
             if not t: continue
             edits.append((t, variants(rng, t) if '\n' not in t else rng.choice(['X', '', t.replace('\n', ' ') + ' more']), rng.choice([None, None, 'because ' + t[:5]]), None))
+        if acc and rng.random() < .15:          # an insertion right at the start of a paragraph / story (the target is the paragraph's head, the new text extends it to the left)
+            starts = [t for t in story_starts(din) if len(t.strip()) > 1]
+            base = rng.choice(starts) if starts and rng.random() < .5 else rng.choice(acc); h = base[:rng.randint(2, 10)]
+            if h.strip() and '\n' not in h: edits.append((h, rng.choice(['In short, ', 'Pre ', 'X']) + h, rng.choice([None, 'c']), None))
+        if rng.random() < .3:                   # ... and the same at a story start whose first run is bold: the target is quoted with its markers, so the insertion point lies on virtual text
+            for st in din['stories'][1:]:
+                ps = list(A.paras({'stories': [st]}))
+                if ps and ps[0]['nodes'] and ps[0]['nodes'][0][0] == 'run':
+                    r0 = ps[0]['nodes'][0]; tx = ''.join(k[1] for k in r0[3] if k[0] == 't')
+                    if tx.strip() and len(r0[3]) == 1 and any(x[0] == 1 and x[1] >= 1 for x in (r0[2] or [])) and not any(x[0] == 2 and x[1] >= 1 for x in (r0[2] or [])):
+                        t = '**%s**' % tx
+                        if raw.count(t) == 1: edits.append((t, 'In short, ' + t, None, None)); break
         if acc and rng.random() < .2:           # two targets that touch (no character between them), in either order of the batch
             base = rng.choice(acc)
             if len(base) >= 6 and '\n' not in base:
@@ -237,7 +259,7 @@ def exact_unique(c, raw, clean):
     acc = para_texts(c['din'], 'acc'); out = []
     for t, n, cm, idx in c['edits']:
         if not t or '\n' in n or '\r' in n or n.startswith('#'): return None
-        hits = [(i, m.start()) for i, p in enumerate(acc) for m in re.finditer(re.escape(t), p)]
+        hits = [(i, m.start()) for i, p in enumerate(acc) for m in re.finditer('(?=%s)' % re.escape(t), p)]      # (overlapping occurrences count)
         if len(hits) != 1: return None
         # the reader must see it exactly once (raw view first, accepted view as fallback), also with whitespace runs collapsed
         if raw.count(t) > 1: return None
@@ -301,7 +323,8 @@ def oracle_C08(c):
                 if txt == acc_out: ok = True; break
             if ok: break
         raw_in = c.get('raw_in', '')
-        if not ok and all(e[0] and (acc_in.count(e[0]) == 1 or (acc_in.count(e[0]) == 0 and e[0] not in raw_in)) for e in c['edits']):
+        occ = lambda t, txt: len(re.findall('(?=%s)' % re.escape(t), txt))      # occurrences, overlapping ones included
+        if not ok and all(e[0] and (occ(e[0], acc_in) == 1 or (occ(e[0], acc_in) == 0 and e[0] not in raw_in)) for e in c['edits']):
             return 'the accepted result %r is not the input %r with any non-conflicting subset of %d submitted edits applied' % (acc_out[:200], acc_in[:200], r['ap'])
     return None
 
